@@ -1,7 +1,8 @@
 """C05 -- condition variables (structural part)."""
-from abtverif import seq
+from abtverif import canon, cfg, seq
 from abtverif.seq import idx, is_call, is_acq, is_rel, is_xfer, held_at, show, has_if, count_if
 from . import common
+from .C04 import ret_paths, call_args
 
 EXPLANATION = (
     "Decides on every path of ABTI_cond_wait / ABT_cond_timedwait that the mutex is released inside the "
@@ -9,7 +10,7 @@ EXPLANATION = (
     "follows with no release in between (R1: atomic release-and-wait), that signal/broadcast run their "
     "wait-list operation inside that same lock (R2), that the signal removes at most the head and saves the "
     "successor before waking (R3), that broadcast visits every node once and empties the list (R4), that the "
-    "blocking arms of both wait functions can only be left through a READY observation or the timeout label "
+    "blocking arms of both wait functions can only be left through a READY observation or a passed deadline test "
     "(R5) and that the timed wait maps is_timedout to ABT_ERR_COND_TIMEDOUT (R6).  It decides these orderings, "
     "not the behaviour of histories.")
 DECLINED = ["'wakes exactly one current waiter' as a statement about histories",
@@ -17,12 +18,13 @@ DECLINED = ["'wakes exactly one current waiter' as a statement about histories",
 ASSUMPTIONS = ["C02.R3 (BLOCKED published after the context is saved) and C04 (mutex) hold",
                "ABTD_futex_* behave like Linux futex wait/wake"]
 RULES_DOC = dict(common.SHARED_DOC)
+RULES_DOC["X4"] = common.X4_DOC
 RULES_DOC.update({
     "R1": "wait/timedwait: mutex unlock inside the cond-lock section, then lock-transferring enqueue on the same cond, mutex re-locked last",
     "R2": "signal/broadcast: exactly one wait-list operation bracketed by the cond lock",
     "R3": "ABTI_waitlist_signal: head only, successor saved before wake-up, tail reset when emptied, external waiter gets release-store READY + futex broadcast",
     "R4": "ABTI_waitlist_broadcast: every node woken once, head and tail nulled, futex broadcast iff a non-yieldable waiter was seen",
-    "R5": "blocking arms of the wait functions are left only after observing READY (or through the timeout label)",
+    "R5": "blocking arms of the wait functions are left only after observing READY (or through the timeout code behind a passed deadline test)",
     "R6": "ABT_cond_timedwait returns ABT_ERR_COND_TIMEDOUT iff is_timedout",
 })
 VARIANTS = ["active_wait", "no_ext_thread", "no_linux_futex", "simple_mutex", "tool_interface"]
@@ -31,13 +33,18 @@ WAITLIST_H = "src/include/abti_waitlist.h"
 CLOCK = "ABTI_cond::lock"
 
 
+def _arg(F, tok, k):
+    """Canonical (local-name independent) value of argument k of the call behind a call/xfer token."""
+    return canon.expr(F, F.nodes[tok[-1]]["a"][k])
+
+
 def rule_R1(P, rep):
     sel = seq.Sel(calls={"ABTI_mutex_unlock", "ABTI_mutex_lock", "ABTI_waitlist_signal",
                          "ABTI_waitlist_broadcast"})
     for fn, waitfn in (("ABTI_cond_wait", "ABTI_waitlist_wait_and_unlock"),
                        ("ABT_cond_timedwait", "ABTI_waitlist_wait_timedout_and_unlock")):
         F = P.fn(fn)
-        ps = [p for p in seq.sequences(F, sel) if p[1] == "ret"]
+        ps = ret_paths(F, sel)
         waits = 0
         for toks, kind, rv, rtxt in ps:
             why = []
@@ -58,10 +65,12 @@ def rule_R1(P, rep):
                         why.append("mutex released while the condition's lock is not held")
                     if any(t[0] in ("rel", "acq") and t[1] == CLOCK for t in toks[u:x]):
                         why.append("condition lock released/re-acquired between the mutex unlock and the enqueue")
-                    if "&ABTI_cond::waitlist" not in toks[x][3]:
-                        why.append("enqueue on %s, not on the condition's own wait list" % (toks[x][3],))
-                    if toks[u][2][-1] != toks[l][2][-1]:
-                        why.append("unlocks %s but re-locks %s" % (toks[u][2][-1], toks[l][2][-1]))
+                    if "&ABTI_cond::waitlist" not in call_args(F, toks[x]):
+                        why.append("enqueue on %s, not on the condition's own wait list" % (call_args(F, toks[x]),))
+                    # the same mutex object (canonical value of the argument, not the name of a local)
+                    mu, ml = _arg(F, toks[u], -1), _arg(F, toks[l], -1)
+                    if mu != ml:
+                        why.append("unlocks %s but re-locks %s" % (mu, ml))
                     if l != max(i for i, t in enumerate(toks) if t[0] in ("call", "acq", "rel", "xfer")):
                         why.append("the mutex re-lock is not the last effect")
                     if rv is not None and rv != 0 and fn == "ABTI_cond_wait":
@@ -80,9 +89,10 @@ def rule_R1(P, rep):
     # ABT_cond_wait forwards to ABTI_cond_wait with its own arguments
     F = P.fn("ABT_cond_wait")
     cs = F.calls("ABTI_cond_wait")
-    ok = len(cs) == 1 and [F.render(a) for a in F.nodes[cs[0][1]]["a"]][1:] == ["p_cond", "p_mutex"]
-    rep.ob("R1", "ABT_cond_wait forwards (p_cond, p_mutex) to ABTI_cond_wait", ok, "", loc="%s:%d" % (F.file, F.line),
-           site="ABT_cond_wait/forward")
+    want = ["ABTI_cond_get_ptr(%s)" % F.params[0]["n"], "ABTI_mutex_get_ptr(%s)" % F.params[1]["n"]]
+    got = [canon.expr(F, a) for a in F.nodes[cs[0][1]]["a"]][1:] if len(cs) == 1 else None
+    rep.ob("R1", "ABT_cond_wait forwards (p_cond, p_mutex) to ABTI_cond_wait", got == want, "forwards %s" % (got,),
+           loc="%s:%d" % (F.file, F.line), site="ABT_cond_wait/forward")
     rep.min_instances("R1", 7)
 
 
@@ -91,16 +101,14 @@ def rule_R2(P, rep):
     for fn, op in (("ABT_cond_signal", "ABTI_waitlist_signal"), ("ABTI_cond_broadcast", "ABTI_waitlist_broadcast")):
         F = P.fn(fn)
         n = 0
-        for toks, kind, rv, rtxt in seq.sequences(F, sel):
-            if kind != "ret":
-                continue
+        for toks, kind, rv, rtxt in ret_paths(F, sel):
             ops = idx(toks, is_call({"ABTI_waitlist_signal", "ABTI_waitlist_broadcast"}))
             why = []
             if rv in (0, None):
                 n += 1
                 if len(ops) != 1 or toks[ops[0]][1] != op:
                     why.append("expected exactly one %s" % op)
-                elif not held_at(toks, CLOCK, ops[0]) or "&ABTI_cond::waitlist" not in toks[ops[0]][2]:
+                elif not held_at(toks, CLOCK, ops[0]) or "&ABTI_cond::waitlist" not in call_args(F, toks[ops[0]]):
                     why.append("wait-list operation outside the condition's lock or on another list")
                 if held_at(toks, CLOCK, len(toks)):
                     why.append("returns holding the lock")
@@ -111,29 +119,85 @@ def rule_R2(P, rep):
         rep.need(n >= 1, "%s: no success path" % fn)
     F = P.fn("ABT_cond_broadcast")
     cs = F.calls("ABTI_cond_broadcast")
+    got = canon.expr(F, F.nodes[cs[0][1]]["a"][1]) if len(cs) == 1 else None
     rep.ob("R2", "ABT_cond_broadcast calls ABTI_cond_broadcast(p_local, p_cond) once",
-           len(cs) == 1 and F.render(F.nodes[cs[0][1]]["a"][1]) == "p_cond", "", loc="%s:%d" % (F.file, F.line),
+           got == "ABTI_cond_get_ptr(%s)" % F.params[0]["n"], "operates on %s" % (got,), loc="%s:%d" % (F.file, F.line),
            site="ABT_cond_broadcast/forward")
     rep.min_instances("R2", 4)
 
 
-def _wl_sel():
+HEAD = "ABTI_waitlist::p_head"
+NEXT = "ABTI_thread::p_next"
+STATE = "ABTI_thread::state"
+YCAST = "ABTI_thread_get_ythread_or_null("
+# the walking cursor of the broadcast loop: the head on the first iteration, the saved successor afterwards
+CURSOR = "{%s | %s}" % tuple(sorted((HEAD, NEXT)))
+
+
+def _sig_cond(t):
+    """Canonical labels of ABTI_waitlist_signal (independent of local names and of the polarity of a test)."""
+    if t == HEAD:
+        return "nonempty"            # head != NULL
+    if t == NEXT:
+        return "has-next"            # saved successor != NULL
+    if t.startswith(YCAST):
+        return "yieldable"
+    return None
+
+
+def _bc_cond(t):
+    """Canonical labels of ABTI_waitlist_broadcast: every test of the walking cursor is `more`."""
+    if t in (HEAD, NEXT, CURSOR):
+        return "more"
+    if t.startswith(YCAST):
+        return "yieldable"
+    if t == "{0 | 1}":
+        return "woke-nonyieldable"   # a local flag that is only ever assigned FALSE / TRUE
+    return None
+
+
+def _wl_sel(cond):
     return seq.Sel(calls={"ABTI_ythread_resume_and_push", "ABTD_futex_broadcast"},
-                   fields={"p_head", "p_tail", "p_next", "state"},
-                   conds=lambda t: t in ("p_thread", "p_next", "p_ythread", "wakeup_nonyieldable"),
-                   decls={"p_next", "p_thread"})
+                   fields={"p_head", "p_tail", "p_next", "state"}, conds=cond, reads={NEXT}, canon=True)
+
+
+def _is_wake(t):
+    return (t[0] == "call" and t[1] == "ABTI_ythread_resume_and_push") or (t[0] == "ast" and t[2] == STATE)
+
+
+def _is_succ_read(t):
+    return t[0] == "rd" and t[1] == NEXT
+
+
+def _read_base(F, tok):
+    """Canonical value of the pointer whose p_next a ('rd', ...) token loads."""
+    mem = F.nodes[F.strip(F.nodes[tok[-1]]["e"], loads=False)]
+    return canon.expr(F, mem["b"]) if mem.get("k") == "mem" else "?"
+
+
+def _woken(F, tok):
+    """Canonical value of the ABTI_thread pointer a wake-up token acts on."""
+    nd = F.nodes[tok[-1]]
+    if tok[0] == "call":
+        v = canon.expr(F, nd["a"][1])
+        return v[len(YCAST):-1] if v.startswith(YCAST) and v.endswith(")") else v
+    a = F.nodes[F.strip(nd["a"][0])]
+    if a.get("k") == "un" and a["op"] == "&":
+        a = F.nodes[F.strip(a["e"])]
+    return canon.expr(F, a["b"]) if a.get("k") == "mem" else "?"
 
 
 def rule_R3(P, rep, active_wait=False):
     F = P.fn("ABTI_waitlist_signal", WAITLIST_H)
     READY = P.enum_consts["ABT_THREAD_STATE_READY"]
-    ps = [p for p in seq.sequences(F, _wl_sel()) if p[1] == "ret"]
+    wl = F.params[1]["n"]
+    ps = [p for p in seq.sequences(F, _wl_sel(_sig_cond)) if p[1] == "ret"]
     rep.need(len(ps) >= 3, "ABTI_waitlist_signal: %d paths" % len(ps))
     for toks, kind, rv, rtxt in ps:
         why = []
-        wakes = [i for i, t in enumerate(toks) if (t[0] == "call" and t[1] == "ABTI_ythread_resume_and_push") or
-                 (t[0] == "ast" and t[2] == "ABTI_thread::state")]
-        empty = not has_if(toks, "p_thread", True)
+        wakes = idx(toks, _is_wake)
+        reads = idx(toks, _is_succ_read)
+        empty = not has_if(toks, "nonempty", True)
         if empty:
             if wakes or any(t[0] == "st" for t in toks):
                 why.append("empty list but something is woken or written")
@@ -142,10 +206,14 @@ def rule_R3(P, rep, active_wait=False):
                 why.append("%d wake-ups on one signal" % len(wakes))
             else:
                 w = wakes[0]
-                saved = [i for i, t in enumerate(toks) if t[0] == "decl" and t[1] == "p_next" and
-                         t[2] == "p_thread->p_next"]
-                if not saved or saved[0] > w:
+                # the successor is loaded from the head before the wake-up and never re-read afterwards
+                if not reads or reads[0] > w:
                     why.append("successor not saved before the waiter is woken (it may be freed)")
+                elif any(canon.rooted(F, F.nodes[toks[r][-1]]["e"]) != "%s->p_head->p_next" % wl for r in reads):
+                    why.append("successor read from %s, not from the head" %
+                               [canon.rooted(F, F.nodes[toks[r][-1]]["e"]) for r in reads])
+                if _woken(F, toks[w]) != HEAD:
+                    why.append("wakes %s, not the head of the list" % _woken(F, toks[w]))
                 if toks[w][0] == "ast":
                     if "release" not in toks[w][1] or toks[w][3] != READY:
                         why.append("external waiter not made READY with a release store")
@@ -153,13 +221,13 @@ def rule_R3(P, rep, active_wait=False):
                     if not active_wait and (not fb or fb[0] < w):
                         why.append("no futex broadcast after READY")
                 hs = [i for i, t in enumerate(toks) if t[0] == "st" and t[1] == "ABTI_waitlist::p_head"]
-                if len(hs) != 1 or toks[hs[0]][3] != "p_next":
+                if len(hs) != 1 or toks[hs[0]][3] != NEXT or any(r > w for r in reads):
                     why.append("head not advanced to the saved successor")
                 tails = [t for t in toks if t[0] == "st" and t[1] == "ABTI_waitlist::p_tail"]
-                if has_if(toks, "p_next", False):
+                if has_if(toks, "has-next", False):
                     if len(tails) != 1 or tails[0][3] != 0:
                         why.append("list emptied but tail not reset")
-                elif has_if(toks, "p_next", True):
+                elif has_if(toks, "has-next", True):
                     if tails:
                         why.append("tail written although the list is not empty")
                 else:
@@ -172,19 +240,18 @@ def rule_R3(P, rep, active_wait=False):
 def rule_R4(P, rep, active_wait=False):
     F = P.fn("ABTI_waitlist_broadcast", WAITLIST_H)
     READY = P.enum_consts["ABT_THREAD_STATE_READY"]
-    ps = [p for p in seq.sequences(F, _wl_sel(), max_len=120) if p[1] == "ret"]
+    ps = [p for p in seq.sequences(F, _wl_sel(_bc_cond), max_len=120) if p[1] == "ret"]
     rep.need(len(ps) >= 4, "ABTI_waitlist_broadcast: %d paths" % len(ps))
     for toks, kind, rv, rtxt in ps:
         why = []
-        empty = count_if(toks, "p_thread", True) == 0
-        wakes = [t for t in toks if (t[0] == "call" and t[1] == "ABTI_ythread_resume_and_push") or
-                 (t[0] == "ast" and t[2] == "ABTI_thread::state")]
+        empty = count_if(toks, "more", True) == 0
+        wakes = [t for t in toks if _is_wake(t)]
         if empty:
             if wakes or any(t[0] == "st" for t in toks):
                 why.append("empty list but something is woken or written")
         else:
-            # one wake-up per visited node (loop head test true n times => n nodes incl. the first)
-            nodes = sum(1 for t in toks if t[0] == "decl" and t[1] == "p_next")
+            # one wake-up per visited node; a node is visited when its successor link is loaded
+            nodes = sum(1 for t in toks if _is_succ_read(t))
             if len(wakes) != nodes:
                 why.append("%d nodes visited but %d wake-ups" % (nodes, len(wakes)))
             ext = [t for t in wakes if t[0] == "ast"]
@@ -202,28 +269,54 @@ def rule_R4(P, rep, active_wait=False):
                                ("issued" if fb else "missing", len(ext)))
                 if fb and wakes and fb[0] < max(i for i, t in enumerate(toks) if t in wakes):
                     why.append("futex broadcast before the last READY store")
-            # successor saved before each wake-up
-            last_decl = -1
-            for i, t in enumerate(toks):
-                if t[0] == "decl" and t[1] == "p_next":
-                    last_decl = i
-                if t in wakes and last_decl < 0:
-                    why.append("wake-up before the successor was saved")
+            # successor saved before each wake-up: the k-th wake-up is preceded by k loads of a successor link,
+            # the last of them from the very node that is woken
+            seen = []
+            k = 0
+            for t in toks:
+                if _is_succ_read(t):
+                    seen.append(t)
+                elif _is_wake(t):
+                    k += 1
+                    if len(seen) < k:
+                        why.append("wake-up before the successor was saved")
+                        break
+                    base = _read_base(F, seen[-1])
+                    if base not in (HEAD, CURSOR) or _woken(F, t) != base:
+                        why.append("successor saved from %s but %s is woken" % (base, _woken(F, t)))
+                        break
         rep.ob("R4", "ABTI_waitlist_broadcast path [%s]" % show(toks)[:400], not why, "; ".join(why),
                loc="%s:%d" % (F.file, F.line), site="broadcast/%s" % show(toks)[:300])
     rep.min_instances("R4", 4)
 
 
+def _r5_cond(F):
+    """Canonical labels of the tests of the blocking arms."""
+    dl = [p["n"] for p in F.params if p["t"] == "double"]
+
+    def cond(t):
+        if STATE in t:
+            # `state == READY` whichever way round it is written (a `!=` test arrives flipped)
+            return "ready" if t.endswith("(&%s) == ABT_THREAD_STATE_READY" % STATE) else "state:" + t
+        if "ABTI_get_wtime()" in t:
+            # `now >= deadline` is `now < deadline` flipped
+            if dl and t == "ABTI_get_wtime() < %s" % dl[0]:
+                return ("deadline-passed", True)
+            return "clock:" + t
+        if YCAST in t:
+            return "yieldable"
+        return None
+    return cond
+
+
 def rule_R5(P, rep):
     """Blocking arms: from the enqueue (store to p_tail) every returning path of the
-    wait functions observes state == READY last (or goes through `timeout`)."""
-    READY = P.enum_consts["ABT_THREAD_STATE_READY"]
-    sel = seq.Sel(calls={"ABTI_ythread_yield", "ABTD_futex_wait_and_unlock", "ABTD_futex_timedwait_and_unlock",
-                         "ABTI_get_wtime"},
-                  fields={"p_tail"},
-                  conds=lambda t: "thread.state" in t or "cur_time" in t or t in ("p_ythread", "is_timedout"))
+    wait functions observes state == READY last (or goes through the timeout code)."""
     for fn in ("ABTI_waitlist_wait_and_unlock", "ABTI_waitlist_wait_timedout_and_unlock"):
         F = P.fn(fn, WAITLIST_H)
+        sel = seq.Sel(calls={"ABTI_ythread_yield", "ABTD_futex_wait_and_unlock", "ABTD_futex_timedwait_and_unlock",
+                             "ABTI_get_wtime"},
+                      fields={"p_tail"}, conds=_r5_cond(F), canon=True)
         ps = [p for p in seq.sequences(F, sel, max_len=120, max_repeat=2) if p[1] == "ret"]
         n = 0
         for toks, kind, rv, rtxt in ps:
@@ -233,19 +326,17 @@ def rule_R5(P, rep):
                 continue
             n += 1
             why = []
-            states = [t for t in toks if t[0] == "if" and "thread.state" in t[1]]
-            timeout = [t for t in toks if t[0] == "if" and "cur_time >= target_time" in t[1] and t[2]]
+            states = [t for t in toks if t[0] == "if" and (t[1] == "ready" or t[1].startswith("state:"))]
+            timeout = [t for t in toks if t[0] == "if" and t[1] == "deadline-passed" and t[2]]
             if timeout:
-                # left through the timeout label: decided by C19
+                # left through the timeout code: decided by C19
                 pass
             else:
                 if not states:
                     why.append("returns without ever testing the waiter's state")
                 else:
                     last = states[-1]
-                    ready_seen = (("== %d" % READY) in last[1] or "== ABT_THREAD_STATE_READY" in last[1]) and last[2] or \
-                                 (("!= %d" % READY) in last[1] or "!= ABT_THREAD_STATE_READY" in last[1]) and not last[2]
-                    if not ready_seen:
+                    if not (last[1] == "ready" and last[2]):
                         why.append("last state test before returning is %s=%s" % (last[1], last[2]))
                 if fn.endswith("timedout_and_unlock") and rv not in (0, None):
                     why.append("reports a timeout without passing the deadline test")
@@ -255,32 +346,39 @@ def rule_R5(P, rep):
     rep.min_instances("R5", 6)
 
 
+TIMED_WAIT = "ABTI_waitlist_wait_timedout_and_unlock"
+
+
 def rule_R6(P, rep):
     F = P.fn("ABT_cond_timedwait")
     T = P.macro_int("ABT_ERR_COND_TIMEDOUT")
     rep.need(T, "ABT_ERR_COND_TIMEDOUT not found in abt.h")
-    sel = seq.Sel(calls={"ABTI_mutex_lock"}, conds=lambda t: t == "is_timedout")
+    # the tested value is looked through to its origin: the result of the timed wait, whatever the local is called
+    sel = seq.Sel(calls={"ABTI_mutex_lock"}, conds=lambda t: "timedout" if t.startswith(TIMED_WAIT + "(") else None,
+                  canon=True)
     n = 0
     for toks, kind, rv, rtxt in seq.sequences(F, sel):
         if kind != "ret" or not idx(toks, is_call("ABTI_mutex_lock")):
             continue
         n += 1
-        tt = [t for t in toks if t[0] == "if" and t[1] == "is_timedout"]
+        tt = [t for t in toks if t[0] == "if" and t[1] == "timedout"]
         ok = len(tt) == 1 and ((tt[0][2] and rv == T) or (not tt[0][2] and rv == 0))
         rep.ob("R6", "timedwait path is_timedout=%s returns %s" % (tt[0][2] if tt else "?", rv), ok,
                "must return ABT_ERR_COND_TIMEDOUT(%d) iff is_timedout" % T, loc="%s:%d" % (F.file, F.line),
                site="ABT_cond_timedwait/ret/%s" % (tt[0][2] if tt else "?"))
-    # is_timedout is the result of the timed wait
-    decl = [F.nodes[i] for _b, i in F.all_events() if F.nodes[i].get("k") == "decl" and
-            any(v["n"] == "is_timedout" for v in F.nodes[i]["vars"])]
-    ok = bool(decl) and any("init" in v and F.nodes[F.strip(v["init"])].get("fn") == "ABTI_waitlist_wait_timedout_and_unlock"
-                            for d in decl for v in d["vars"] if v["n"] == "is_timedout")
-    rep.ob("R6", "is_timedout is the value returned by the timed wait", ok, "", loc="%s:%d" % (F.file, F.line),
+    # is_timedout is the result of the timed wait: one call, and its value (not something else) decides the return
+    calls = F.calls(TIMED_WAIT)
+    tests = [b for b in F.blocks.values() if b.tc is not None and
+             canon.cond(F, cfg.cond_atom(F, b.tc, True)[0])[0].startswith(TIMED_WAIT + "(")]
+    rep.ob("R6", "is_timedout is the value returned by the timed wait", len(calls) == 1 and bool(tests),
+           "%d timed waits, %d tests of their result" % (len(calls), len(tests)), loc="%s:%d" % (F.file, F.line),
            site="ABT_cond_timedwait/is_timedout")
     rep.need(n >= 2, "timedwait: %d waiting paths" % n)
 
 
 def run(P, rep, tier):
+    if tier == "thorough":
+        common.rule_X4(P, rep)
     v = P.variant
     common.run_shared(P, rep)
     rule_R1(P, rep)
